@@ -233,13 +233,23 @@ def run(tier, repo=None, tag="repo"):
     try:
         apply(F, Sink(rep))
         er_at_most_one(F, Sink(rep))
+        # AP's premise "window minimum <= x <= window maximum" is the contract of Minimum / Maximum: re-established here with C01's rules
+        import rules_c01
+        from rules_c09 import _Map
+        from rules_c14 import mirror
+        m_ = _Map(rep, {"I6": "AP", "I7": "AP"})
+        try:
+            rules_c01.extreme_unit(F, m_, "Minimum", "I6")
+            rules_c01.extreme_unit(F, m_, "Maximum", "I7", transform=mirror)
+        except (symex.Unsupported, KeyError, IndexError, TypeError, AttributeError) as e:
+            Sink.bad(m_, "AP", "unrecognised", "Minimum/Maximum", "UNRECOGNISED idiom while establishing the window-extreme contract: %r" % (e,))
     except symex.Unsupported as e:
         rep.violation("C07:unrecognised", "RW", "UNRECOGNISED idiom: %s" % e)
     rep.configs = ["default"]
     rep.functions.update(f.path for f in F.fns if f.self_struct in ("RelativeStrengthIndex", "FastStochastic", "SlowStochastic", "MoneyFlowIndex", "EfficiencyRatio", "ExponentialMovingAverage"))
     rep.explanation = ("the range of each bounded oscillator is a corollary of its documented formula plus sign facts: ratio-of-part-to-whole (monomial sign "
                        "analysis of the rational normal form), affine position between window extremes, convex combination. EfficiencyRatio <= 1 by the triangle inequality, whose hypotheses (chain of "
-                       "successive differences from the reference to the input) are checked (ER1). NOT decided: MFI's conditioning clause, the contract Minimum.step(v) <= v <= Maximum.step(v)")
+                       "successive differences from the reference to the input) are checked (ER1). NOT decided: MFI's conditioning clause, the 1e-9 rounding slack")
     rep.assumptions = ["finite positive prices / valid bars, volume >= 0, non-zero denominator (the property's premises)",
-                       "Minimum.step(v) <= v and Maximum.step(v) >= v (window semantics, C01 territory)", "MFI running totals non-negative (conditioning premise of the property)"]
+                       "Minimum / Maximum return the extremes of the window that contains the value just fed (C01-I6/I7, re-established in this check)", "MFI running totals non-negative (conditioning premise of the property)"]
     return rep
